@@ -455,12 +455,14 @@ func c27(c *hx.Ctx) {
 
 	// ---- Node27 ----
 	type scen struct {
-		subs   map[string]int // channel -> handlers
-		subsL  []string       // order
-		pcs    [][2]any       // (peer, channel)
-		msgs   []symMsg
-		gated  bool // observer 1 does not read its stream for a while (back-pressure)
-		result *node27Result
+		subs       map[string]int // channel -> handlers
+		subsL      []string       // order
+		pcs        [][2]any       // (peer, channel)
+		msgs       []symMsg
+		gated      bool     // observer 1 does not read its stream for a while (back-pressure)
+		churn      []string // channels subscribed and released at once, long before the traffic
+		churnEarly bool     // ... before Execute starts (else right after its first pass)
+		result     *node27Result
 	}
 	scens := make([]*scen, nNode)
 	for i := range scens {
@@ -516,6 +518,30 @@ func c27(c *hx.Ctx) {
 			sent = append(sent[:pos], append(ins, sent[pos:]...)...)
 		}
 		// back-pressure: observer 1 stops reading while more than its send queue holds is forwarded to it
+		// subscribe-release churn on a channel without any other subscription; peers announce it and
+		// authentic messages for it arrive later
+		if i%3 == 1 {
+			x := gg.other[c.Rng.Intn(len(gg.other))]
+			s.churn = []string{x}
+			s.churnEarly = c.Rng.Intn(2) == 0
+			for _, p := range []int{1, 2} {
+				found := false
+				for _, pc := range s.pcs {
+					if pc[0].(int) == p && pc[1].(string) == x {
+						found = true
+					}
+				}
+				if !found && (p == 2 || c.Rng.Intn(2) == 0) {
+					s.pcs = append(s.pcs, [2]any{p, x})
+				}
+			}
+			for j := 0; j < 2+c.Rng.Intn(2); j++ {
+				hm := gg.attach(honest([]int{0, 1, 3}[c.Rng.Intn(3)], gg.data("u"), x, c.Rng.Intn(4)), false)
+				hm.class = "churned-unsubscribed"
+				pos := c.Rng.Intn(len(sent) + 1)
+				sent = append(sent[:pos], append([]symMsg{hm}, sent[pos:]...)...)
+			}
+		}
 		if i%8 == 3 {
 			s.gated = true
 			ch := gg.chans[0]
@@ -541,7 +567,7 @@ func c27(c *hx.Ctx) {
 
 	parallel(len(scens), 8, func(i int) {
 		s := scens[i]
-		s.result = runNode27(r, s.subs, s.subsL, s.pcs, s.msgs, s.gated)
+		s.result = runNode27(r, s.subs, s.subsL, s.pcs, s.msgs, s.gated, s.churn, s.churnEarly)
 	})
 
 	for _, s := range scens {
@@ -567,7 +593,7 @@ func c27(c *hx.Ctx) {
 			fwdT = append(fwdT, "("+hx.Nat(p)+", "+hx.NatList(res.forwarded[p])+")")
 		}
 		desc := map[string]any{"kind": "node", "subs": s.subs, "announced": s.pcs, "classes": classes,
-			"delivered": res.descDelivered(), "forwarded": res.forwarded, "timeout": res.timeout, "observer1_gated": s.gated}
+			"delivered": res.descDelivered(), "forwarded": res.forwarded, "timeout": res.timeout, "observer1_gated": s.gated, "subscribed_and_released_at_once": s.churn, "churn_before_execute": s.churnEarly}
 		c.Case(hx.App("Node27", hx.List(subsT), hx.List(pcsT), hx.Nat(0), hx.List(msgsT), hx.List(delT), hx.List(fwdT)), desc)
 		if len(res.delivered) > 1 {
 			c.Nontrivial(fmt.Sprint(desc))
@@ -721,7 +747,7 @@ func (r *node27Result) descDelivered() []string {
 }
 
 // runNode27 runs one real FloodSub against a raw sender (peer 0) and two raw observers.
-func runNode27(r *realizer, subs map[string]int, order []string, pcs [][2]any, msgs []symMsg, gated bool) *node27Result {
+func runNode27(r *realizer, subs map[string]int, order []string, pcs [][2]any, msgs []symMsg, gated bool, churn []string, churnEarly bool) *node27Result {
 	ctx, cancel := context.WithCancel(context.Background())
 	defer cancel()
 	fs := newFloodSub(ctx)
@@ -771,7 +797,33 @@ func runNode27(r *realizer, subs map[string]int, order []string, pcs [][2]any, m
 			p.close()
 		}
 	}()
+	// subscribe-release churn: the channel is subscribed and released in one go, so it is never
+	// announced; two sweep periods later the node has no subscription on it by any reading
+	doChurn := func() {
+		for _, ch := range churn {
+			sub, err := fs.AddSubscription(ctx, r.keys[4].priv, ch)
+			if err != nil {
+				panic(err)
+			}
+			sub.AddHandler(func(m pubsub.Message) {
+				mu.Lock()
+				recs = append(recs, rec{ch: ch, from: m.GetFrom(), data: append([]byte{}, m.GetData()...)})
+				mu.Unlock()
+			})
+			sub.Release()
+		}
+	}
+	if churnEarly {
+		doChurn()
+	}
 	go func() { _ = fs.Execute(ctx) }()
+	if len(churn) > 0 {
+		if !churnEarly {
+			waitFor(5*time.Second, time.Millisecond, func() bool { return len(fs.VerifSnapshot().Started) == 3 })
+			doChurn()
+		}
+		time.Sleep(260 * time.Millisecond) // more than two periods of the Execute loop
+	}
 
 	// announcements of the raw peers
 	per := map[int][]*floodsub.SubscriptionOpts{}
